@@ -3,21 +3,23 @@
 # Applies a property-breaking patch to /repo, checks that it compiles and that the repo's own test
 # suite still passes, runs the check (expected: exit 1 with a VIOLATION line), then reverts /repo.
 set -u
+SELF=$(dirname "$(readlink -f "$0")")
 PATCH=$(readlink -f "$1"); ID=$2; TIER=${3:-quick}; NOTESTS=${4:-}
-. "$(dirname "$(readlink -f "$0")")/env.sh"
+. "$SELF/env.sh"
+LOG=$(mktemp -d)
 cd ${REPO_DIR:-/repo}
 if ! git diff --quiet; then echo "mutate: /repo has uncommitted changes"; exit 2; fi
 git apply "$PATCH" || { echo "mutate: patch does not apply"; exit 2; }
-trap 'git -C ${REPO_DIR:-/repo} checkout -- . ; git -C ${REPO_DIR:-/repo} clean -fdq' EXIT
+trap 'git -C ${REPO_DIR:-/repo} checkout -- . ; git -C ${REPO_DIR:-/repo} clean -fdq; rm -rf $LOG' EXIT
 if [ -z "$NOTESTS" ]; then
-  if ! go build ./... 2>/tmp/mutate_build.log; then echo "mutate: does not compile"; cat /tmp/mutate_build.log; exit 2; fi
-  if ! go test -vet=off -count=1 ./... >/tmp/mutate_tests.log 2>&1; then echo "mutate: repo tests FAIL with this patch (not a valid mutant)"; tail -5 /tmp/mutate_tests.log; exit 2; fi
+  if ! go build ./... 2>$LOG/build.log; then echo "mutate: does not compile"; cat $LOG/build.log; exit 2; fi
+  if ! go test -vet=off -count=1 ./... >$LOG/tests.log 2>&1; then echo "mutate: repo tests FAIL with this patch (not a valid mutant)"; tail -5 $LOG/tests.log; exit 2; fi
   echo "mutate: repo tests pass with patch"
 fi
-cd "$(dirname "$(readlink -f "$0")")"
-./check "$ID" "$TIER" > /tmp/mutate_check.log 2>&1
+cd "$SELF"
+./check "$ID" "$TIER" > $LOG/check.log 2>&1
 rc=$?
-grep -E "^VIOLATION|^KNOWN-FINDING" /tmp/mutate_check.log | head -5
-tail -1 /tmp/mutate_check.log
-if [ $rc -eq 1 ] && grep -q "^VIOLATION property=$ID" /tmp/mutate_check.log; then echo "mutate: DETECTED ($PATCH by $ID $TIER)"; exit 0; fi
+grep -E "^VIOLATION|^KNOWN-FINDING" $LOG/check.log | head -5
+tail -1 $LOG/check.log
+if [ $rc -eq 1 ] && grep -q "^VIOLATION property=$ID" $LOG/check.log; then echo "mutate: DETECTED ($PATCH by $ID $TIER)"; exit 0; fi
 echo "mutate: NOT DETECTED (rc=$rc)"; exit 1
